@@ -275,7 +275,8 @@ namespace
                 std::size_t nn = r.range(8, 700);
                 // variants: the class of the bad call
                 static const char* small_classes[] = {"foreign-pointer", "chunk-header", "before-first-chunk", "after-last-chunk", "misaligned"};
-                static const char* dbl_classes[]   = {"double-free-first", "double-free-last", "double-free-most-recent", "double-free-middle"};
+                static const char* dbl_classes[]   = {"double-free-first", "double-free-last", "double-free-most-recent", "double-free-middle",
+                                                      "double-free-list-neighbour-of-most-recent"};
                 std::vector<const char*> classes;
                 if (is_small)
                     for (auto s : small_classes)
@@ -362,6 +363,12 @@ namespace
                         bad = sorted.back();
                     else if (cl == "double-free-most-recent")
                         bad = most_recent;
+                    else if (cl == "double-free-list-neighbour-of-most-recent")
+                    {
+                        // the free node next to the most recently freed one in address order (its list neighbour in an ordered list)
+                        auto it = std::find(sorted.begin(), sorted.end(), most_recent);
+                        bad     = it != sorted.begin() && (cr.chance(50) || it + 1 == sorted.end()) ? *(it - 1) : it + 1 != sorted.end() ? *(it + 1) : *(it - 1);
+                    }
                     else
                         bad = sorted[sorted.size() / 2];
                     if (cl == "before-first-chunk" || cl == "after-last-chunk")
@@ -415,6 +422,78 @@ namespace
                     st.unwind(m2); // above the current top
                 });
                 judge(kind, cls, o);
+                flag("bad-call");
+            });
+    }
+
+    // valid use of a static_block_allocator up to and beyond exhaustion: the failed request must not make later valid releases "invalid"
+    void valid_static_exhaustion(const args& a)
+    {
+        std::string kind = "static-exhaustion-valid";
+        if (a.kind != "all" && a.kind != kind)
+            return;
+        for (long c = a.from; c < a.to; ++c)
+            run_case(kind, c, [&] {
+                auto r = case_rng(a.seed, a.group, kind, c);
+                static static_allocator_storage<4096> storage;
+                std::size_t                           bs = std::size_t(256) << r.below(3);
+                static_block_allocator                b(bs, storage);
+                std::vector<memory_block>             v;
+                false_report_guard                    frg;
+                op("static_block_allocator(%zu) over 4096 bytes: allocate until out_of_fixed_memory, release in LIFO order, repeat", bs);
+                for (int round = 0; round < 3; ++round)
+                {
+                    int failures = 0;
+                    for (int i = 0; i < 40; ++i)
+                    {
+                        if (r.chance(65))
+                        {
+                            try
+                            {
+                                v.push_back(b.allocate_block());
+                            }
+                            catch (out_of_fixed_memory&)
+                            {
+                                ++failures;
+                                count("out_of_memory_thrown");
+                            }
+                        }
+                        else if (!v.empty())
+                        {
+                            b.deallocate_block(v.back());
+                            v.pop_back();
+                            frg.check("a valid LIFO deallocate_block");
+                        }
+                    }
+                    while (!v.empty())
+                    {
+                        b.deallocate_block(v.back());
+                        v.pop_back();
+                        frg.check("a valid LIFO deallocate_block");
+                    }
+                    // everything returned: the whole storage is available again
+                    std::size_t n = 0;
+                    try
+                    {
+                        for (;;)
+                        {
+                            v.push_back(b.allocate_block());
+                            ++n;
+                        }
+                    }
+                    catch (out_of_fixed_memory&)
+                    {
+                    }
+                    if (n != 4096 / bs)
+                        viol("C04", "C04/" + kind + "/capacity-lost", "after %d failed requests and complete release the storage serves %zu blocks instead of %zu",
+                             failures, n, 4096 / bs);
+                    while (!v.empty())
+                    {
+                        b.deallocate_block(v.back());
+                        v.pop_back();
+                        frg.check("a valid LIFO deallocate_block");
+                    }
+                }
                 flag("bad-call");
             });
     }
@@ -504,6 +583,7 @@ int main(int argc, char** argv)
         bad_pool<small_node_pool>(a, "small");
         bad_stack(a);
         bad_blocks(a);
+        valid_static_exhaustion(a);
 #endif
     }
     finish();
